@@ -24,7 +24,7 @@ Definition name := str.
 Inductive rawcol :=
 | RNum (cells : list (option num))
 | RCat (cats : list pval) (cells : list (option pval))
-| RMulti (cats : list pval) (sep : option str) (cells : list mc_cell)
+| RMulti (dtype_ok : bool) (cats : list pval) (sep : option str) (cells : list mc_cell)   (* dtype_ok: object / string dtype *)
 | RSeq (cells : list seq_cell)
 | RTime (cells : list (option Z))
 | REmb (cells : list (list num))
@@ -36,7 +36,7 @@ Definition rawcol_stype (c : rawcol) : stype :=
   match c with
   | RNum _ => st_numerical
   | RCat _ _ => st_categorical
-  | RMulti _ _ _ => st_multicategorical
+  | RMulti _ _ _ _ => st_multicategorical
   | RSeq _ => st_sequence_numerical
   | RTime _ => st_timestamp
   | REmb _ => st_embedding
@@ -47,7 +47,7 @@ Definition rawcol_stype (c : rawcol) : stype :=
 
 Definition rawcol_len (c : rawcol) : nat :=
   match c with
-  | RNum l => length l | RCat _ l => length l | RMulti _ _ l => length l | RSeq l => length l
+  | RNum l => length l | RCat _ l => length l | RMulti _ _ _ l => length l | RSeq l => length l
   | RTime l => length l | REmb l => length l | RTextEmb l => length l | RImageEmb l => length l
   | RTok l => length l
   end.
@@ -81,13 +81,13 @@ Definition tokenized_forward {L} (s : @series L (list (str * list Z))) : option 
            (map fst o0)
   end.
 
-(* self._get_mapper(col).forward(df[col]) *)
-Definition encode_col {L} (index : list L) (c : rawcol) : option encoded :=
+(* self._get_mapper(col).forward(df[col]); leqb is the equality of index labels *)
+Definition encode_col {L} (leqb : L -> L -> bool) (index : list L) (c : rawcol) : option encoded :=
   match c with
   | RNum cells => Some (ECol (numerical_encode (combine index cells)))
   | RCat cats cells => Some (ECol (categorical_encode cats (combine index cells)))
-  | RMulti cats sep cells => option_map ECol (multicategorical_encode cats sep (combine index cells))
-  | RSeq cells => option_map ECol (sequence_encode (combine index cells))
+  | RMulti dt cats sep cells => option_map ECol (multicategorical_encode dt cats sep (combine index cells))
+  | RSeq cells => option_map ECol (sequence_encode leqb (combine index cells))
   | RTime cells => Some (ECol (timestamp_encode (combine index cells)))
   | REmb cells => option_map ECol (embedding_encode (combine index cells))
   | RTextEmb rows => option_map ECol (embedded_encode (combine index rows))
@@ -259,8 +259,8 @@ Definition convert_with (enc : rawcol -> option encoded) (target : option name) 
   t <- tf_validate (MkTF feat_dict names y) ;;
   merge_feat t.
 
-Definition convert {L} (target : option name) (df : frame L) : option tensor_frame :=
-  convert_with (encode_col (f_index df)) target (f_cols df).
+Definition convert {L} (leqb : L -> L -> bool) (target : option name) (df : frame L) : option tensor_frame :=
+  convert_with (encode_col leqb (f_index df)) target (f_cols df).
 
 (* ------------------------------------------------------------------------- *)
 (* reading the frame the way a user does: tf.feat_dict[stype][i, j] *)
